@@ -71,6 +71,19 @@ CHECKS.update({
             "DESIGN.md §2 C15"),
 })
 
+CHECKS.update({
+    "C04": ("exploration",
+            "reference-server ground truth + value oracle over store->fetch round trips through the real client paths, random reply segmentation",
+            "Seeded round trips (each regenerated from its case seed) over Client, PooledClient and HashClient(1..3): legal keys up to the 250-byte limit (str/bytes, unicode, prefixes), values over the full byte alphabet incl. protocol text and sizes around the 4096-byte receive size up to 1 MiB, str/int without serde, generated objects under pickle 0..5 / compressed / custom serdes; stores via set/add/replace/cas/set_many/append/prepend/explicit flags, fetches via get/gets/gat/gats/get_many/gets_many with key collections list/tuple/set/frozenset/dict/dict_keys/generator/iterator. The server must hold exactly prefix+encoded key (and the explicit flags); the fetch must return every present key once, under the caller's key, with the expected value and exact type, never the prefix, never an absent key.",
+            "RefServer stands for the 'faithful memcached'; random (seeded) rather than exhaustive.",
+            "DESIGN.md §2 C04"),
+    "C05": ("exploration",
+            "API-level reference model (dict with expiry and cas versions) stepped in lockstep with client+RefServer on a shared virtual clock; cas tokens through a token<->version bijection",
+            "Bounded-exhaustive: all histories of length <=3 (<=4 thorough) over ~45 op instances incl. cas with fresh/stale/bogus tokens, expiring stores and clock advances below/at/above the ttl, noreply variants; every return value/exception class is compared with the model, plus a final get_many sweep; seeded random histories of length 10..60 on Client, PooledClient and HashClient(1); exhaustive set_many failed-key-list scenarios (server refusing subsets of keys).",
+            "RefServer (wire level) and AbstractCache (API level) are written separately and share only the listed server-semantics assumptions (evidence file).",
+            "DESIGN.md §2 C05"),
+})
+
 NOT_YET = "check not built yet in this round (runtime-monitoring design in DESIGN.md §2); will be claimed once its monitor exists"
 
 manifest = {
